@@ -51,10 +51,8 @@ State ==
          spurious == got \ want
          other == {f \in got : f[1] = "other"}
      IN /\ (missing # {} \/ spurious # {}) =>
-             Say("DIFF", Ev.t, [missing |-> Some(missing), spurious |-> Some(spurious),
-                                nmissing |-> Cardinality(missing), nspurious |-> Cardinality(spurious)])
-        /\ bad' = bad \cup (IF missing # {} THEN {"Missing:" \o Some(missing)[1]} ELSE {})
-                      \cup (IF spurious # {} THEN {"Spurious:" \o Some(spurious)[1]} ELSE {})
+             Say("DIFF", Ev.t, [missing |-> missing, spurious |-> spurious])
+        /\ bad' = bad \cup {"Missing:" \o f[1] : f \in missing} \cup {"Spurious:" \o f[1] : f \in spurious}
   /\ st' = st /\ l' = l + 1
 
 \* C08: every location-bearing element the specification tracks records, per declaration and in
@@ -68,17 +66,19 @@ Locs ==
          missing == want \ got
          spurious == got \ want
      IN /\ (missing # {} \/ spurious # {}) =>
-             Say("LOCDIFF", Ev.t, [missing |-> Some(missing), spurious |-> Some(spurious),
-                                   nmissing |-> Cardinality(missing), nspurious |-> Cardinality(spurious)])
-        /\ bad' = bad \cup (IF missing # {} \/ spurious # {} THEN {"Loc:" \o Some(missing \cup spurious)[2]} ELSE {})
+             Say("LOCDIFF", Ev.t, [missing |-> missing, spurious |-> spurious])
+        /\ bad' = bad \cup {"Loc:" \o f[2] : f \in missing \cup spurious}
                       \cup (IF ebs # {} THEN {"LocEndBeforeStart"} ELSE {})
   /\ st' = st /\ l' = l + 1
 
 \* C03: every layout of the same declarations is accepted and compiles to the same model
 Variant ==
   /\ Is("variant")
-  /\ bad' = bad \cup (IF ~Ev.accepted THEN {"LayoutRejected"} ELSE {})
-                \cup (IF Ev.accepted /\ Ev.digest # Ev.base THEN {"LayoutChangesModel"} ELSE {})
+  /\ LET baseok == IF "baseaccepted" \in DOMAIN Ev THEN Ev.baseaccepted ELSE TRUE
+     IN bad' = bad \cup (IF "panic" \in DOMAIN Ev THEN {"LayoutCrash"} ELSE {})
+                   \cup (IF baseok /\ ~Ev.accepted THEN {"LayoutRejected"} ELSE {})
+                   \cup (IF ~baseok /\ Ev.accepted THEN {"LayoutAccepted"} ELSE {})
+                   \cup (IF baseok /\ Ev.accepted /\ Ev.digest # Ev.base THEN {"LayoutChangesModel"} ELSE {})
   /\ st' = st /\ l' = l + 1
 
 Ret ==
